@@ -381,7 +381,7 @@ func (g *gen) regression() []byte {
 	lim := uint64(1 + r.Intn(14))
 	p := []ins{raw(0x00), push(tail), pushInt(lim), raw(0xc0), raw(0x75), jump(0x63, 0)}
 	code := assemble(p)
-	return append(code, r.Bytes(r.Intn(700))...)
+	return append(code, r.Bytes(r.Intn(400))...)
 }
 
 func (g *gen) malformed(base []byte) []byte {
@@ -532,7 +532,6 @@ func run(c *Ctx) error {
 		case k < 74:
 			kind = "regression-child-refund"
 			cs.Code = g.regression()
-			gcap = 6000
 		case k < 84:
 			kind = "gas-loop"
 			body := g.neutral()
@@ -560,9 +559,16 @@ func run(c *Ctx) error {
 			g.feat["checkpredicate"] = true
 			g.feat["nest4"] = true
 		}
-		if g.feat["gas-loop"] || g.feat["back-edge"] {
-			if gcap > 20000 {
-				gcap = 20000
+		if g.feat["gas-loop"] || g.feat["back-edge"] || kind == "regression-child-refund" {
+			// loops run until the gas is gone: one model step costs O(program length) under vm_compute
+			lc := int64(1500)
+			if k := r.Intn(100); k >= 95 {
+				lc = 20000
+			} else if k >= 70 {
+				lc = 4000
+			}
+			if gcap > lc {
+				gcap = lc
 			}
 		}
 		cs.Gas = gasLimit(r, gcap)
